@@ -12,8 +12,8 @@ CONF = {
                 quick=dict(cfg="MCAttest_06", bits=[1024, 2048, 3072], nflip=40),
                 thorough=dict(cfg="MCAttest_06t", bits=[1024, 1536, 2048, 3072, 4096], nflip=400)),
     "C16": dict(test="TestVerifAttest16", fml="TC16", strict="Strict16",
-                quick=dict(cfg="MCAttest_16", mutperpos=2, truncstep=3, mintevery=7, nrandmh=3000, reps=1),
-                thorough=dict(cfg="MCAttest_16", mutperpos=16, truncstep=1, mintevery=1, nrandmh=60000, reps=4)),
+                quick=dict(cfg="MCAttest_16", mutperpos=2, truncstep=3, mintevery=7, nrandmh=3000, reps=1, alt=400),
+                thorough=dict(cfg="MCAttest_16", mutperpos=16, truncstep=1, mintevery=1, nrandmh=60000, reps=4, alt=6000)),
 }
 CHUNK = 80000
 
@@ -26,8 +26,8 @@ def key_of(prop, e):
     r = e["res"]
     pan = str(r["pan"]).lower()
     if prop == "C06":
-        return "op=attest kt=%s alg=%d rel=%s time=%s sf=%s mut=%s shape=%s acc=%s pan=%s" % (
-            e["kt"], e["alg"], e["rel"], e["time"], e["sf"], e["mut"], e["em"]["shape"], str(r["acc"]).lower(), pan)
+        return "op=attest attestor=%s kt=%s alg=%d rel=%s time=%s sf=%s mut=%s shape=%s acc=%s pan=%s" % (
+            e.get("hist", "?"), e["kt"], e["alg"], e["rel"], e["time"], e["sf"], e["mut"], e["em"]["shape"], str(r["acc"]).lower(), pan)
     if e["op"] == "modhex":
         return "op=modhex vlen=%d present=%s ok=%s pan=%s" % (len(e["val"]), str(e["present"]).lower(), str(r["ok"]).lower(), pan)
     if e["op"] == "parse":
@@ -103,7 +103,7 @@ def run(prop, tier):
     if prop == "C06":
         plan = {"c06": {"cases": cases, "bits": tc["bits"], "nflip": tc["nflip"], "workers": 4}}
     else:
-        plan = {"c16": {"cases": cases, "mutperpos": tc["mutperpos"], "truncstep": tc["truncstep"], "mintevery": tc["mintevery"], "nrandmh": tc["nrandmh"], "reps": tc["reps"]}}
+        plan = {"c16": {"cases": cases, "mutperpos": tc["mutperpos"], "truncstep": tc["truncstep"], "mintevery": tc["mintevery"], "nrandmh": tc["nrandmh"], "reps": tc["reps"], "alt": tc["alt"]}}
     meta = {"tier": tier, "seed": vlib.seed(), "plan": {k: v for k, v in list(plan.values())[0].items() if k != "cases"}}
     with open(planp, "w") as f:
         json.dump(plan, f)
@@ -122,6 +122,9 @@ def run(prop, tier):
             raise NoVerdict("only %d of %d exported cases were materialised (%d unrealisable)" % (summ["a_cases"], want, summ["unrealisable"]))
         if summ["accepted"] == 0 or summ["b_cases"] == 0:
             raise NoVerdict("vacuous run: no attestation accepted or no direction-B case")
+        if summ["primed"] != len(tc["bits"]) + 4 or summ["twin_calls_on_used"] == 0:
+            raise NoVerdict("vacuous run: the genuine certificates were not all accepted on the long-lived Attestor (%d) or no forged twin was presented to it (%d)"
+                            % (summ["primed"], summ["twin_calls_on_used"]))
     else:
         if summ["std_rejected_conforming"] > 0:
             raise NoVerdict("crypto/x509 refused %d certificates minted by crypto/x509 (harness problem)" % summ["std_rejected_conforming"])
@@ -129,8 +132,8 @@ def run(prop, tier):
         if summ["parse"] != byop["parse"] * tc["reps"] or summ["pem"] < byop["pem"] or summ["modhex"] < byop["modhex"] or summ["mut"] == 0:
             raise NoVerdict("not every exported case was executed: %s vs %s" % (json.dumps(summ), dict(byop)))
         agree = sum(1 for x in steps if x["e"]["op"] == "parse" and x["e"]["res"]["yok"] and len(x["e"]["res"]["eq"]) == 11)
-        if agree == 0:
-            raise NoVerdict("vacuous run: no certificate was parsed in agreement")
+        if agree == 0 or summ["alt"] < 2 * tc["alt"]:
+            raise NoVerdict("vacuous run: no certificate was parsed in agreement, or the alternating sequence did not run (%d)" % summ["alt"])
     for d in drift[:20]:
         log("SPEC-DRIFT (differs from the precise design, allowed by the property): %s" % json.dumps(d)[:500])
     samples = [sample_of(x["e"]) for x in (steps[:2] + steps[len(steps) // 2:len(steps) // 2 + 2] + steps[-2:])]
@@ -173,18 +176,31 @@ def replay(prop, path):
     planp, outp = os.path.join(wd, "plan.json"), os.path.join(wd, "obs.ndjson")
     mp = meta.get("plan", {})
     if prop == "C06":
-        drop = ("k", "src", "res", "info")
+        drop = ("k", "src", "res", "info", "hist")
         a = [x for x in evs if x["e"]["src"] == "A"]
         b = [x["tid"] for x in evs if x["e"]["src"] != "A"]
-        bits = sorted({x["e"]["k"] * 8 for x in a if x["e"]["k"] and not x["tid"].endswith("-ff")}) or mp.get("bits", [1024])
+        bits = sorted({x["e"]["k"] * 8 for x in a if x["e"]["k"] and "-ff" not in x["tid"]}) or mp.get("bits", [1024])
         plan = {"c06": {"cases": [{"c": {k: v for k, v in x["e"].items() if k not in drop}} for x in a], "bits": bits,
                         "nflip": mp.get("nflip", 40), "only": b, "nob": not b, "workers": 2}}
     else:
-        drop = ("src", "res", "info", "der")
+        drop = ("src", "res", "info", "der", "hist")
         a = [x for x in evs if x["e"]["src"].startswith("A") and not x["e"].get("der")]
         raw = [x["e"]["der"] for x in evs if x["e"].get("der")]
-        plan = {"c16": {"cases": [{"c": {k: v for k, v in x["e"].items() if k not in drop}} for x in a], "raw": raw,
-                        "mutperpos": 0, "truncstep": 1, "mintevery": 1, "nob": True}}
+        cs = []
+        for x in a:
+            c = {k: v for k, v in x["e"].items() if k not in drop}
+            if x["e"]["src"] == "A-parsed":     # the extractor was run on a parsed shape: mint and parse that shape again
+                c.update(op="parse", present=False, val=[])
+            cs.append({"c": c})
+        alt = 0
+        if any(x["e"].get("hist") not in (None, "fresh") for x in a):
+            # the recorded call followed other calls in the same process: re-create a history of extension-rich and
+            # extension-free certificates around it
+            blank = dict(p="C16", op="parse", kt="p256", sa="ecdsa-sha256", tail="clean", n=0, lead="none", trail="none", present=False, val=[])
+            cs += [{"c": dict(blank, exts=["bc", "ku", "kid", "san", "eku", "pol", "vendor"])}, {"c": dict(blank, exts=[])},
+                   {"c": dict(blank, kt="rsa", sa="sha256-rsa", exts=["vendor"])}, {"c": dict(blank, kt="rsa-nonull", sa="sha256-rsa", exts=[])}]
+            alt = 25
+        plan = {"c16": {"cases": cs, "raw": raw, "mutperpos": 0, "truncstep": 1, "mintevery": 1, "nob": True, "alt": alt, "reps": 1}}
         if not a and not raw:
             raise NoVerdict("the recorded call carries no input bytes and no model case; nothing to re-execute")
     with open(planp, "w") as f:
